@@ -511,6 +511,28 @@ fn gen_huge_case(rng: &mut Rng) -> Vec<String> {
     ops
 }
 
+/// a source that fails on one byte range: reads around it, and the one benign history dependence (a
+/// delimited read answered from the string cache although a fresh cache would have to read a buffer the
+/// source refuses)
+fn failing_source_case() -> Case {
+    let lo = CH - 100;
+    let g = Gen { len: 2 * CH + 100, seed: CH - 50, pat: 1, period: 1 << 40, bad_lo: CH + 10, bad_hi: CH + 11 };
+    let ops = vec![
+        g.line(),
+        Op::Until(lo, lo + LIMIT, 0).line(), // needs [0, 2 CH): source fails
+        Op::Until(lo, lo + 60, 0).line(),    // needs [0, CH): ok, 50 bytes, cached
+        Op::Until(lo, lo + LIMIT, 0).line(), // string-cache hit: ok
+        Op::Read(CH - 5, 5).line(),
+        Op::Read(CH - 5, 6).line(),   // straddles into the chunk with the bad byte
+        Op::Read(CH + 11, 5).line(),  // same chunk as the bad byte
+        Op::Read(2 * CH, 100).line(), // last (partial) chunk is fine
+        Op::Read(2 * CH - 1, 2).line(),
+        Op::Into(CH + 11, 5).line(), // uncached: only the request itself matters
+        Op::Into(CH + 5, 6).line(),
+    ];
+    Case { name: "failing-source".to_string(), ops }
+}
+
 /// the repo's unit-test scenarios of the range planner, scaled to the real chunk size, on real bytes
 fn planner_cases() -> Vec<Case> {
     let g = Gen { len: 5 * CH + CH / 2, seed: 7, pat: 0, period: 1, bad_lo: 0, bad_hi: 0 };
@@ -565,6 +587,7 @@ impl Prop for C13 {
             v.push(boundary_case(len, 0));
         }
         v.extend(planner_cases());
+        v.push(failing_source_case());
         for &len in &[u64::MAX, u64::MAX - CH + 1, u64::MAX - CH, u64::MAX - 3 * CH + 17] {
             v.push(huge_case(len, 0));
             v.push(huge_case(len, 1));
